@@ -49,7 +49,7 @@ fn main() {
             let cfgline = format!("config profile={profile}");
             writeln!(out, "{cfgline} => {{\"ret\":\"ok\",\"cmds\":[],\"chg\":[]}}").unwrap();
             let mut w = World::new(&id, &cfg);
-            let mut g = Gen { r, thorough: args.tier == "thorough", len: args.len, step: 0, flips: vec![], nkeys: 0, nmsg: 0 };
+            let mut g = Gen { r, thorough: args.tier == "thorough", len: args.len, step: 0, flips: vec![], nkeys: 0, nmsg: 0, nflip: 0 };
             let setup = if profile == "cms" { g.setup_cms() } else { g.setup_ta() };
             for op in setup {
                 let obs = w.exec(&op);
@@ -74,6 +74,7 @@ struct Gen {
     flips: Vec<String>,
     nkeys: usize,
     nmsg: usize,
+    nflip: usize,
 }
 
 impl Gen {
@@ -236,14 +237,13 @@ impl Gen {
         let child = *self.r.pick(&["c", "d"]);
         let other = if child == "c" { "d" } else { "c" };
         let keyref = |g: &mut Gen| -> String {
-            match g.r.below(10) {
-                0..=3 => format!("id:{child}"),
-                4 => format!("id:{other}"),
-                5 => format!("prev:{child}"),
-                6 => "rnd".into(),
-                7 => "id:p".into(),
-                8 => "srv".into(),
-                _ => format!("id:{child}"),
+            match g.r.below(14) {
+                0..=7 => format!("id:{child}"),
+                8 => format!("id:{other}"),
+                9 | 10 => format!("prev:{child}"),
+                11 => "rnd".into(),
+                12 => "id:p".into(),
+                _ => "srv".into(),
             }
         };
         Some(match c {
@@ -294,7 +294,9 @@ impl Gen {
                 self.nmsg += 1;
                 let name = format!("m{}", self.nmsg);
                 let prov = self.r.chance(1, 2);
-                let nbits = if self.thorough { usize::MAX } else { 256 / 2 };
+                // thorough: every bit of the first corrupted message of the case, 512 sampled bits of the others
+                let nbits = if self.thorough { if self.nflip == 0 { usize::MAX } else { 512 } } else { 256 / 2 };
+                self.nflip += 1;
                 let (mk, send, approx_len) = if prov {
                     (format!("mk6492 {name} sender={child} recip=p key=id:{child} pl=list"), format!("send6492 p {name}"), 1700usize)
                 } else {
